@@ -49,14 +49,18 @@ impl<'a> BerDecoder<'a> for SnmpReal {
                     3 => (2usize, *i.get(1).ok_or(SnmpError::InvalidData)? as usize),
                     n => (1usize, n as usize + 1),
                 };
-                if e_len == 0 || e_len > 4 || i.len() < e_start + e_len {
+                if e_len == 0 || i.len() < e_start + e_len {
                     return Err(SnmpError::InvalidData);
                 }
                 // The exponent is a two's complement binary number
+                // of any length. Stop accumulating once it is far
+                // beyond the range of f64, only the sign matters then.
                 let e_octets = &i[e_start..e_start + e_len];
                 let mut e: i64 = if e_octets[0] & 0x80 == 0x80 { -1 } else { 0 };
                 for &n in e_octets.iter() {
-                    e = (e << 8) | (n as i64);
+                    if (-(1i64 << 40)..(1i64 << 40)).contains(&e) {
+                        e = (e << 8) | (n as i64);
+                    }
                 }
                 // 8.5.7.5: The remaining contents octets encode
                 // the integer N as an unsigned binary number.
@@ -72,7 +76,7 @@ impl<'a> BerDecoder<'a> for SnmpReal {
                 // 8.5.7.3: Bits 4 to 3 of the first contents octet shall
                 // encode the value of the binary scaling factor F
                 // as an unsigned binary integer. M = S * N * 2^F
-                v *= f64::from(1u8 << ((f & 0x0c) >> 2));
+                let scale = ((f & 0x0c) >> 2) as i64;
                 // 8.5.7.2: Bits 6 to 5 of the first contents octets
                 // shall encode the value of the base B' as follows:
                 // Bits6to5 => Base
@@ -80,13 +84,21 @@ impl<'a> BerDecoder<'a> for SnmpReal {
                 // 01 => base 8
                 // 10 => base 16
                 // 11 => Reserved for further editions of this Recommendation | International Standard.
-                let base: f64 = match f & 0x30 {
-                    0 => 2.0,
-                    0x10 => 8.0,
-                    0x20 => 16.0,
+                let log2_base: i64 = match f & 0x30 {
+                    0 => 1,
+                    0x10 => 3,
+                    0x20 => 4,
                     _ => return Err(SnmpError::InvalidData),
                 };
-                v *= base.powi(e as i32);
+                // The value is N * 2^(E * log2(B') + F). Scale by exact powers
+                // of two in two steps, so that neither a very small result
+                // (subnormal) nor a very large exponent goes wrong on the way.
+                // (N has at most 64 bits: beyond these limits the result
+                // is zero or infinity anyway, and both factors stay finite)
+                let e2 = (e * log2_base + scale).clamp(-1200, 1100) as i32;
+                let half = e2 / 2;
+                v *= 2f64.powi(half);
+                v *= 2f64.powi(e2 - half);
                 // 8.5.7.1: Bit 7 of the first contents octets
                 // shall be 1 if S is –1 and 0 otherwise.
                 if f & 0x40 == 0x40 {
